@@ -221,3 +221,32 @@ func VerifHarness_C18_PercentileGrid() {
 func VerifHarness_C18_CollectorLocks() { VerifHarness_C11_Collector() }
 func VerifHarness_C18_CounterAtomic()  { VerifHarness_C11_Counter() }
 func VerifHarness_C18_HistogramLocks() { VerifHarness_C11_Histogram() }
+
+// three tags with concrete names, every order of the tag map (the project's own series have
+// 0-2 tags; three is where an insufficient ordering of the key shows)
+func VerifHarness_C18_Identity3C() {
+	c := NewCollector()
+	mk := func() map[string]string { return map[string]string{"op": "load", "ok": "true", "db": "main"} }
+	a := c.Counter("events", mk()) // reference: one fixed order
+	verifMapOrder(3)
+	b := c.Counter("events", mk())
+	verifMapOrder(1)
+	verifAssert(a == b, "C18: the same name and tags always yield the same counter, whatever order the tags are held in")
+	a.Inc()
+	b.Inc()
+	verifAssert(a.Value() == 2, "C18: every event recorded for one series lands in one series")
+	verifReach("identity")
+}
+
+// observations beyond the last bucket bound are observations too
+func VerifHarness_C18_Overflow() {
+	h := NewHistogram("h", nil)
+	vals := []float64{5, 10000, 10001, 1e9}
+	n := verifIntRange("n", 1, 3)
+	for i := 0; i < n; i++ {
+		h.Observe(vals[verifIntRange("value", 0, len(vals)-1)])
+	}
+	verifAssert(h.Count() == int64(n), "C18: a histogram reports exactly as many observations as were made")
+	verifAssert(h.Percentile(99) > 0, "C18: percentiles of positive observations are positive")
+	verifReach("observed")
+}
